@@ -393,9 +393,20 @@ func (c01) Eval(t *testing.T, c *Case, dec func(int) *Decider) *Outcome {
 		o.Stats.probe("rollback-dump-checked")
 	}
 
+	// Without the tx.commit.done event (a tree whose Commit lost the hook) the
+	// commits are counted from the output instead: the dump that follows the k-th
+	// COMMIT statement completed => that commit completed. A run cancelled at an
+	// unknown point of a COMMIT cannot be judged that way and is skipped.
+	noCommitEvents := hookMissing("tx.commit.done")
+	if noCommitEvents {
+		o.Stats.probe("oracle-fallback:commit-count-from-output")
+		if strings.Contains(p.ErrType, "SignalReceived") || ending == "cancel" {
+			return o
+		}
+	}
 	// the directory after the end == the directory at the most recent COMMIT
 	want := obs.last()
-	if diff := dirDiff(want, res.Final); diff != "" {
+	if diff := dirDiff(want, res.Final); diff != "" && !noCommitEvents {
 		how := "normal end"
 		if abnormal {
 			how = "end by " + ending + " (" + firstLine(p.ErrText) + ")"
@@ -424,7 +435,19 @@ func (c01) Eval(t *testing.T, c *Case, dec func(int) *Decider) *Outcome {
 			initDump = d.Idx
 		}
 	}
-	switch nDone := len(obs.snaps); {
+	nDone := len(obs.snaps)
+	if noCommitEvents {
+		nDone = 0
+		for _, ci := range commitDumps {
+			if done[ci] {
+				nDone++
+			}
+		}
+		if p.ExitCode == 0 && ending != "exit" {
+			nDone++ // the implicit commit of a normal end
+		}
+	}
+	switch {
 	case nDone == 0:
 		lastDump = initDump
 	case nDone <= len(commitDumps):
@@ -435,7 +458,7 @@ func (c01) Eval(t *testing.T, c *Case, dec func(int) *Decider) *Outcome {
 			o.Stats.probe("implicit-commit-without-final-dump")
 		}
 	}
-	if (ending == "exit" || (ending == "fail" && p.ExitCode != 0)) && len(obs.snaps) > len(commitDumps) {
+	if !noCommitEvents && (ending == "exit" || (ending == "fail" && p.ExitCode != 0)) && len(obs.snaps) > len(commitDumps) {
 		o.viol(prop, "all-or-nothing", "commit-on-abnormal-end:"+ending,
 			fmt.Sprintf("the procedure ended by %s (%s) after %d COMMIT statement(s), but %d commits were performed: changes made since the last COMMIT were written", ending, firstLine(p.ErrText), len(commitDumps), len(obs.snaps)))
 	}
